@@ -164,6 +164,12 @@ def lines_for_tab(lines_iter, inc_tab):
             yield line
 
 
+def _with_newline(line):
+    """Terminates the last line of included code, so the line of the
+    including cart that follows stays a line of its own."""
+    return line if line.endswith(b'\n') else line + b'\n'
+
+
 def process_includes(lualines, filename=None):
     """Processes #include lines.
 
@@ -208,11 +214,11 @@ def process_includes(lualines, filename=None):
                 inc_game = p8_fmt_cls.from_file(
                     fh, filename=inc_full_path, do_includes=False)
                 for line in lines_for_tab(inc_game.lua.to_lines(), inc_tab):
-                    yield line
+                    yield _with_newline(line)
         else:
             with open(inc_full_path, 'rb') as fh:
                 for line in fh:
-                    yield line
+                    yield _with_newline(line)
 
 
 class P8Formatter(BaseFormatter):
